@@ -12,7 +12,7 @@ from .arrdom import AArr, LabelKeys
 from .evalrun import ARRAY_LABELS, CFG, build_evaluator, build_groups, construct, run_evaluate
 
 INFO = {
-    "explanation": "Rounds 4/5: grouped runs also with groups present on one side only, a covering group, and both group orders; an all-zero array / an unfiltered copy is accepted as the restriction exactly when the group is absent / covers every present label. Panoptica_Evaluator.evaluate is run abstractly end to end (objects built by running the real constructors; arrays are abstract label arrays; the pipeline call is the observation point) for each input type with three groups - plain [1,2], merge [3,4], single-instance [5] - and without groups: (R12.1) a non-zero label of the prediction or of the reference that belongs to no group raises before anything is evaluated; (R12.2) every group's pipeline call receives copies of the prediction/reference restricted to exactly that group's labels (uncrossed, labels not narrowed), and its result is stored under that group's name, every group exactly once; (R12.3) plain groups keep label values, merge groups are binarised; (R12.4) single-instance groups of non-matched input are re-wrapped as matched pairs with decision threshold 0, other groups keep the input's pair class and the configured threshold; (R12.5) the evaluator's configuration reaches the pipeline parameter of the same name. (R12.6) SegmentationClassGroups.__init__ is run on the three accepted specification forms (dict of tuples, dict of groups, list of groups) and must yield exactly the given names, labels, kind and single-instance flag. Further delegated: R15.8. Round 6: R09.6 (label enumeration incl. negative values) is delegated here: which labels occur in the arrays, and hence must be covered by a group, is what the enumeration helpers report.",
+    "explanation": "Rounds 4/5: grouped runs also with groups present on one side only, a covering group, and both group orders; an all-zero array / an unfiltered copy is accepted as the restriction exactly when the group is absent / covers every present label. Panoptica_Evaluator.evaluate is run abstractly end to end (objects built by running the real constructors; arrays are abstract label arrays; the pipeline call is the observation point) for each input type with three groups - plain [1,2], merge [3,4], single-instance [5] - and without groups: (R12.1) a non-zero label of the prediction or of the reference that belongs to no group raises before anything is evaluated; (R12.2) every group's pipeline call receives copies of the prediction/reference restricted to exactly that group's labels (uncrossed, labels not narrowed), and its result is stored under that group's name, every group exactly once; (R12.3) plain groups keep label values, merge groups are binarised; (R12.4) single-instance groups of non-matched input are re-wrapped as matched pairs with decision threshold 0, other groups keep the input's pair class and the configured threshold; (R12.5) the evaluator's configuration reaches the pipeline parameter of the same name. (R12.6) SegmentationClassGroups.__init__ is run on the three accepted specification forms (dict of tuples, dict of groups, list of groups) and must yield exactly the given names, labels, kind and single-instance flag. Further delegated: R15.8. Round 6: R09.6 (label enumeration incl. negative values) is delegated here: which labels occur in the arrays, and hence must be covered by a group, is what the enumeration helpers report. Round 8: (R12.6) the labels that count as defined are exactly the labels of the groups the object holds - also for group names that differ in case only.",
     "trusted_base": ["numpy: np.isin / masked store / copy semantics (DESIGN appendix A.2/A.3)", "Python semantics of the modelled AST subset"],
     "assumptions": ["group label sets are disjoint (the constructor only warns otherwise)"],
     "not_decided": ["numerical equality with an ungrouped evaluation of the restricted arrays: follows from R12.2-R12.4 because the same pipeline function is called"],
